@@ -36,8 +36,8 @@ TrInjCnt == Cfg.inj
 TrDefMask == Cfg.def
 
 
-CbFields  == {"m", "s", "j", "pre", "sid", "cact", "mact", "mia", "ctx", "self", "ev", "req", "cprev", "cur", "pend", "plan", "pfl", "acts", "mact2"}
-RetFields == {"op", "r", "pre", "act", "ia", "on", "prev", "pne", "pfirst", "plast", "plan"}
+CbFields  == {"m", "s", "j", "pre", "sid", "cact", "mact", "mia", "ctx", "self", "ev", "req", "cprev", "cur", "pend", "plan", "pfl", "acts", "pfl2", "mact2"}
+RetFields == {"op", "r", "pfl", "pre", "act", "ia", "on", "prev", "pne", "pfirst", "plast", "plan"}
 
 Diff(fields, o, e) == {f \in fields : o[f] # e[f]}
 
